@@ -4,7 +4,7 @@ owner; member-count quorum with a faked member count.  Oracle: the quorum arithm
 from streams.cluster import T0, hx
 
 HEADER = 3
-REQUIRED_SHAPES = ["write_quorum_met_with_unreachable", "write_quorum_unmet", "read_quorum_unmet", "read_quorum_met",
+REQUIRED_SHAPES = ["backup_without_copy", "write_quorum_met_with_unreachable", "write_quorum_unmet", "read_quorum_unmet", "read_quorum_met",
                    "member_quorum_refused"]
 
 
@@ -35,6 +35,10 @@ class Oracle:
         if name == "c.own":
             p, b = reply.split("pick=")[1].split("/")
             self.route = ([int(x) for x in p.split(",")], [int(x) for x in b.split(",")] if b != "-" else [])
+            return None
+        if name == "wb.del":
+            self.copies.pop(int(a[0]), None)
+            self.hit("backup_without_copy")
             return None
         if name == "c.mcq":
             self.cfg["mcq"] = a[0]
@@ -112,6 +116,15 @@ class Gen:
         yield "c.put emb %d dm %s %s" % (owner, key, hx(b"v1"))
         yield "wb dm %s" % key
         yield "c.get emb %d dm %s" % (owner, key)
+        # phase 1b: a reachable backup owner that holds no copy (e.g. it joined late): it answers, but
+        # its answer is not a copy of the key
+        if baks and r.random() < 0.6:
+            lose = [m for m in baks if r.random() < 0.6] or [baks[0]]
+            for m in lose:
+                yield "wb.del %d B dm %s" % (m, key)
+            yield "c.get emb %d dm %s" % (owner, key)
+            yield "c.put emb %d dm %s %s" % (owner, key, hx(b"v1b"))
+            yield "c.get emb %d dm %s" % (owner, key)
         # phase 2: a subset of the backup owners becomes unreachable
         victims = [m for m in baks if r.random() < 0.6]
         for v in victims:
